@@ -2,8 +2,11 @@
    A case holds the trace of a REFERENCE run of one configuration in a fresh interpreter and the traces
    of the same configuration under other schedules (after other runs, with the NumPy global generator
    reseeded / drawn from before the run, between evaluations and inside the evaluator, with reused or
-   new PluginManager / OptimizerContext objects), each with the count of global-generator touches
-   attributed to ropt/SciPy by the run-time monitor.  Requests and results are 63-bit digests of their
+   new PluginManager / OptimizerContext / Plan / configuration objects, with complete other runs executed
+   inside the evaluator), each with the count of touches attributed to ropt/SciPy by the run-time monitor:
+   accesses of the generator-like state (NumPy's legacy global generator, scipy.stats random_state) and
+   writes of the table-like state (module-level containers, class attributes, cached plug-in instances,
+   the configuration object).  Requests and results are 63-bit digests of their
    exact byte strings.  The checker RUNS the machine of Model/Rng.v (replay instance of the reference)
    under each recorded schedule and compares trace, exit code and touch count with the observation;
    by Proofs.Rng.non_interference the machine's answer is the reference trace and 0 touches. *)
@@ -12,7 +15,7 @@ From Ropt Require Import Base.ListX Model.Rng.
 Import ListNotations.
 
 Record run_obs := {
-  r_sched : list (list Z);    (* foreign operations per micro step: j >= 0 is np.random.seed(j), j < 0 a draw *)
+  r_sched : list (list Z);    (* foreign operations per micro step: j >= 0 reseeds (np.random.seed / dist.random_state), j < 0 draws or is a complete other run *)
   r_g0 : Z;                   (* abstract initial global state (the schedule's label) *)
   r_trace : list (Z * Z);     (* observed (request digest, result digest) per evaluator call *)
   r_exit : Z;
@@ -30,16 +33,19 @@ Definition foreign_of (j : Z) : Z -> Z := if Z.ltb j 0 then (fun g => Z.succ g) 
 
 Definition pair_eqb (a b : Z * Z) : bool := Z.eqb (fst a) (fst b) && Z.eqb (snd a) (snd b).
 
+(* the table-like state of the process (abstract version number): no run may change it *)
+Definition table0 : Z := 0%Z.
+
 Definition check_run (c : case) (r : run_obs) : bool :=
-  let o := replay (k_ref c) (map (map foreign_of) (r_sched r)) (r_g0 r) in
-  list_eqb pair_eqb (o_trace _ _ _ o) (r_trace r) && Z.eqb (o_exit _ _ _ o) (r_exit r) &&
-  o_complete _ _ _ o && Nat.eqb (o_touches _ _ _ o) (r_touches r).
+  let o := replay (k_ref c) (map (map foreign_of) (r_sched r)) (r_g0 r) table0 in
+  list_eqb pair_eqb (o_trace _ _ _ _ o) (r_trace r) && Z.eqb (o_exit _ _ _ _ o) (r_exit r) &&
+  o_complete _ _ _ _ o && Nat.eqb (o_touches _ _ _ _ o) (r_touches r) && Z.eqb (o_table _ _ _ _ o) table0.
 
 (* the reference itself is a run of a deterministic evaluator: the machine reproduces it *)
 Definition ref_ok (c : case) : bool :=
-  let o := replay (k_ref c) [] 0%Z in
-  list_eqb pair_eqb (o_trace _ _ _ o) (map (fun e : bool * Z * Z => let '(_, rq, rs) := e in (rq, rs)) (s_calls (k_ref c))) &&
-  o_complete _ _ _ o && Nat.eqb (o_touches _ _ _ o) (k_ref_touches c).
+  let o := replay (k_ref c) [] 0%Z table0 in
+  list_eqb pair_eqb (o_trace _ _ _ _ o) (map (fun e : bool * Z * Z => let '(_, rq, rs) := e in (rq, rs)) (s_calls (k_ref c))) &&
+  o_complete _ _ _ _ o && Nat.eqb (o_touches _ _ _ _ o) (k_ref_touches c).
 
 Definition check_case (c : case) : bool :=
   ref_ok c && forallb (check_run c) (k_runs c) &&
